@@ -9,6 +9,11 @@ import writerlib as wl
 LEVEL = "proof"
 
 
+def regenerate(res):
+    from props import c07
+    c07.regenerate(res)
+
+
 def read_battery(rng, cfg, exp, files):
     """ranges that begin or end on first/last samples of files, blocks and gaps, plus whole and random"""
     ks = sorted(exp)
